@@ -299,22 +299,22 @@ var c15Reps = func() []D {
 	}
 	fin := func(neg bool, c int64, e int) { add(DFin(neg, big.NewInt(c), e)) }
 	for _, neg := range []bool{false, true} {
-		fin(neg, 1, 0)       // 1
-		fin(neg, 10, -1)     // 1 in another cohort
-		fin(neg, 1000, -3)   // 1 in another cohort
-		fin(neg, 25, -2)     // 0.25
-		fin(neg, 5, -1)      // 0.5
-		fin(neg, 15, -1)     // 1.5 (half-integer)
-		fin(neg, 2, 0)       // even integer
-		fin(neg, 25, -1)     // 2.5
-		fin(neg, 3, 0)       // odd integer
-		fin(neg, 300, -2)    // odd integer, other cohort
-		fin(neg, 4, 0)       // even
-		fin(neg, 7, 0)       // odd
-		fin(neg, 1, 3)       // 1000
-		fin(neg, 1, 20)      // large even integer
-		fin(neg, 125, -3)    // 0.125
-		fin(neg, 1024, 0)    // power of two
+		fin(neg, 1, 0)     // 1
+		fin(neg, 10, -1)   // 1 in another cohort
+		fin(neg, 1000, -3) // 1 in another cohort
+		fin(neg, 25, -2)   // 0.25
+		fin(neg, 5, -1)    // 0.5
+		fin(neg, 15, -1)   // 1.5 (half-integer)
+		fin(neg, 2, 0)     // even integer
+		fin(neg, 25, -1)   // 2.5
+		fin(neg, 3, 0)     // odd integer
+		fin(neg, 300, -2)  // odd integer, other cohort
+		fin(neg, 4, 0)     // even
+		fin(neg, 7, 0)     // odd
+		fin(neg, 1, 3)     // 1000
+		fin(neg, 1, 20)    // large even integer
+		fin(neg, 125, -3)  // 0.125
+		fin(neg, 1024, 0)  // power of two
 	}
 	return out
 }()
